@@ -2,6 +2,7 @@ import DymVerif.Driver.Common
 import DymVerif.Gen.Keys
 import DymVerif.Driver.C19Coll
 import DymVerif.Driver.C19X
+import DymVerif.Driver.C19Addr
 namespace DymVerif.Driver.C19
 open DymVerif DymVerif.Keys DymVerif.Driver
 
@@ -219,7 +220,7 @@ def step (_ : Unit) (f : List String) : Unit × String :=
       let a := dnKeyOf fa (hex! ca)
       let b := dnKeyOf fb (hex! cb)
       s!"{decide (a.bytes = b.bytes)} {isPrefix a.familyPrefix b.bytes}"
-  | _ => ((C19Coll.step f).orElse fun _ => C19X.step f).getD "bad-op")
+  | _ => (((C19Coll.step f).orElse fun _ => C19X.step f).orElse fun _ => C19Addr.step f).getD "bad-op")
 
 def drv : Drv := { σ := Unit, init := (), step := step }
 
